@@ -57,49 +57,63 @@ def _resolve_sliceable(conn: Sliceable) -> Sliceable:
     raise TypeError(f"Invalid attempt to resolve slicing on {conn}")
 
 
-def _list_slice(slize: Slice) -> List[Slice]:
-    """Internal recursive helper for `resolve_slice`.
-    Returns a list of Slices in which each element has a concrete Signal for its parent."""
+def _slice_indices(slize: Slice) -> List[int]:
+    """The indices into its parent selected by `slize`, in selection order."""
+    if slize.step > 0:
+        return list(range(slize.bot, slize.top, slize.step))
+    return list(range(slize.top - 1, slize.bot - 1, slize.step))
 
-    # Resolve "full-width" slices to their parent Signals
-    if width(slize) == width(slize.parent):
-        # Return a single-element list, after resolution
-        return [_resolve_sliceable(slize.parent)]
 
-    if isinstance(slize.parent, Signal):
+def _list_bits(conn: Sliceable) -> List[Union[Signal, Slice]]:
+    """Internal helper for `_list_slice`.
+    Returns one element per bit of `conn`, least-significant first.
+    Each is either a one-bit Signal or a one-bit Slice of a concrete Signal."""
+
+    if isinstance(conn, Signal):
+        if conn.width == 1:
+            return [conn]
+        return [conn[idx] for idx in range(conn.width)]
+    if isinstance(conn, Slice):
+        parent_bits = _list_bits(conn.parent)
+        return [parent_bits[idx] for idx in _slice_indices(conn)]
+    if isinstance(conn, Concat):
+        return [bit for part in conn.parts for bit in _list_bits(part)]
+    if isinstance(conn, (PortRef, BundleRef)):
+        if conn.resolved is None:
+            raise RuntimeError(f"Unresolved reference {conn}")
+        return _list_bits(conn.resolved)
+    raise TypeError(f"Invalid attempt to resolve slicing on {conn}")
+
+
+def _list_sliceable(conn: Sliceable) -> List[Union[Signal, Slice]]:
+    """Flatten `conn` to a list of Signals and unit-step Slices of concrete Signals, least-significant first."""
+    if isinstance(conn, Signal):
+        return [conn]
+    if isinstance(conn, Slice):
+        return _list_slice(conn)
+    if isinstance(conn, Concat):
+        return [elem for part in conn.parts for elem in _list_sliceable(part)]
+    if isinstance(conn, (PortRef, BundleRef)):
+        if conn.resolved is None:
+            raise RuntimeError(f"Unresolved reference {conn}")
+        return _list_sliceable(conn.resolved)
+    raise TypeError(f"Invalid attempt to resolve slicing on {conn}")
+
+
+def _list_slice(slize: Slice) -> List[Union[Signal, Slice]]:
+    """Internal helper for `resolve_slice`.
+    Returns a list of Signals and Slices in which each Slice has unit step and a concrete Signal for its parent."""
+
+    # Resolve "full-width", in-order slices to their parents
+    if slize.step == 1 and width(slize) == width(slize.parent):
+        return _list_sliceable(slize.parent)
+
+    if isinstance(slize.parent, Signal) and slize.step == 1:
         return [slize]  # Already all good! Just make a one-element list.
 
-    # Do some actual work. Recursively peel off a bit at a time.
-    if width(slize) == 1:
-        # Base case: slice is one-bit wide. Reach into the parent signal and grab that bit.
-
-        if isinstance(slize.parent, Slice):
-            parent = slize.parent  # Note this is also a Slice
-            return _list_slice(parent.parent[parent.bot + slize.bot])
-
-        if isinstance(slize.parent, Concat):
-            idx = 0  # Find the `part` including our index
-            for part in slize.parent.parts:
-                if width(part) + idx > slize.bot:
-                    return _list_slice(part[slize.bot - idx])
-                idx += width(part)
-            msg = f"Slice {slize} is out of bounds of Concat {slize.parent}"
-            raise RuntimeError(msg)
-
-        raise TypeError(f"Invalid attempt to resolve slicing on {slize}")
-
-    # Otherwise recurse in something like a "cons" pattern, splitting between the first bit and the rest.
-    step = slize.step
-    if step < 0:  # Negative step, begin from `top`
-        first = _list_slice(slize.parent[slize.top])
-        rest = slize.parent[slize.top + step : slize.bot : step]
-        rest = _list_slice(rest)
-
-    else:  # Positive step, begin from `bot`
-        first = _list_slice(slize.parent[slize.bot])
-        rest = _list_slice(slize.parent[slize.bot + step : slize.top : step])
-
-    return first + rest
+    # Otherwise select from the parent a bit at a time.
+    parent_bits = _list_bits(slize.parent)
+    return [parent_bits[idx] for idx in _slice_indices(slize)]
 
 
 def _resolve_slice(slize: Slice) -> Sliceable:
@@ -139,33 +153,7 @@ def _resolve_concat(conc: Concat) -> Concat:
     if not len(conc.parts):
         raise RuntimeError("Concatenation with no parts")
 
-    if all(_flat_concatable(p) for p in conc.parts):
-        return Concat(*[_resolve_sliceable(p) for p in conc.parts])
-
-    if isinstance(conc.parts[0], Concat):
-        # Recursively cover the first element, and all others
-        first = _resolve_concat(conc.parts[0])
-        rest = _resolve_concat(Concat(*conc.parts[1:]))
-        return Concat(*(first.parts + rest.parts))
-
-    if isinstance(conc.parts[0], Slice):
-        # Resolve everything within the Slice to a list of concrete-Signal slices
-        first = _resolve_slice(conc.parts[0])
-        # Pass everything else recursively back to this method
-        rest = _resolve_concat(Concat(*conc.parts[1:]))
-        # And concatenate the two
-        return Concat(*(first + rest.parts))
-
-    # Otherwise peel off as many Signals and concrete-Signal Slices as we can
-    for idx in range(len(conc.parts)):
-        if _flat_concatable(conc.parts[idx]):
-            continue
-        # Hit our first "compound" entry. Split the list here.
-        first = conc.parts[:idx]
-        rest = _resolve_concat(Concat(*conc.parts[idx:]))
-        return Concat(*(first + rest.parts))
-
-    raise RuntimeError("Unable to resolve concatenation")
+    return Concat(*_list_sliceable(conc))
 
 
 def _resolve_ref(ref: Union[PortRef, BundleRef]) -> Sliceable:
